@@ -43,7 +43,7 @@ def use_table(k):
     INV.update({v: kk for kk, v in CH.items()})
 URI = {0: "PYRO:Pyro.NameServer@localhost:9090", 1: "PYRO:obj1@host1:1111", 2: "PYRO:obj2@host2:2222"}
 URI_INV = {v: k for k, v in URI.items()}
-TAG = {1: "x", 2: "X"}
+TAG = {1: "x", 2: "X", 3: ""}       # a case pair and the empty string
 TAG_INV = {v: k for k, v in TAG.items()}
 
 MC_CFG = """SPECIFICATION Spec
@@ -294,7 +294,7 @@ class Pair:
 SETUPS = [
     # rich states: names that differ by case, contain the SQL wildcards, the empty name, non-ASCII, tags in all combinations
     [{"op": "register", "name": n, "uri": 1 + i % 2, "safe": False, "tags": tg, "meta": False}
-     for i, (n, tg) in enumerate([([1], [1]), ([2], [2]), ([1, 1], [1, 2]), ([1, 3], []), ([3], [1]), ([1, 4, 1], [2]),
+     for i, (n, tg) in enumerate([([1], [1]), ([2], [2]), ([1, 1], [1, 2]), ([1, 3], [3]), ([3], [1, 3]), ([1, 4, 1], [2]),
                                   ([5], [1, 2]), ([1, 6], [1]), ([], [2])])],
     [{"op": "register", "name": n, "uri": 1 + i % 2, "safe": False, "tags": tg, "meta": False}
      for i, (n, tg) in enumerate([([1, 1], []), ([2], [1, 2]), ([1, 4, 1], [1]), ([1, 6], [2])])],
